@@ -353,7 +353,7 @@ def run_kani_job(job, src, tdir, logdir, playback=False):
         cmd += resolve_unwindset(job, src, tdir)
     except Inconclusive as e:
         return {"harness": job.harness, "status": "INCONCLUSIVE", "reason": str(e), "failed": [], "log": logf, "cmd": " ".join(cmd)}
-    rc, wall, timed_out = run_limited(cmd, src, logf, job.timeout * (2 if playback else 1), job.mem_gb * 2 + 4 if playback else job.mem_gb)
+    rc, wall, timed_out = run_limited(cmd, src, logf, job.timeout * (2 if playback else 1), min(48, job.mem_gb * 3 + 8) if playback else job.mem_gb)
     txt = open(logf, errors="replace").read()
     res = parse_kani(txt)
     res.update({"harness": job.harness, "rc": rc, "wall_s": round(wall, 1), "log": logf, "cmd": " ".join(cmd)})
